@@ -1,5 +1,6 @@
 import CkbVerif.Lemmas.ReorgStage
 import CkbVerif.Lemmas.ReorgReadd
+import CkbVerif.Lemmas.ReorgSubmit
 
 /-!
 # C12 — after any reorg the pool agrees with the new chain
@@ -555,6 +556,47 @@ theorem readd_refusal_model_exact_without_cell_ref_parents (a : Args) (live : Li
     (hc : cellRefParents q (entryOf a t) = []) : readdOneR a live q t = readdOne a live q t :=
   readdOneR_eq_readdOne a live q t hc
 
+/-- the same with the weaker hypothesis of the repaired code: no EVICTABLE cell-ref parent (none, or only parents the
+    transaction needs) -/
+theorem readd_refusal_model_exact_without_evictable_parents (a : Args) (live : List Nat) (q : Pool) (t : CTx)
+    (hc : evictableParents q (entryOf a t) = []) : readdOneR a live q t = readdOne a live q t :=
+  readdOneR_eq_readdOne_of_no_evictable a live q t hc
+
+/-- over the limit with no evictable cell-ref parent (every cell-ref parent created an input or cell dep of the
+    entry): `ExceededMaximumAncestorsCount`, the pool is unchanged (/repo 10e306f) -/
+theorem add_entry_over_limit_without_evictable_parent_refuses (m : Nat) (pref : List Nat) (q : Pool) (e : PEnt)
+    (h : m < (ancestorsOf q (linkParentsE q e)).length + 1) (hc : evictableParents q e = []) :
+    addEntry m pref q e = (q, false) := addEntry_over_limit_no_evictable m pref q e h hc
+
+/-- F33 REPAIRED, for every pool, limit and evict-key order: when `add_entry` inserts the entry, every pooled
+    transaction that created one of its inputs or cell deps is still pooled -/
+theorem add_entry_inserted_keeps_needed_parents (m : Nat) (pref : List Nat) (q : Pool) (e : PEnt)
+    (h : (addEntry m pref q e).2 = true) (id : Nat) (hid : id ∈ neededIds q e) :
+    hasId (addEntry m pref q e).1 id = true := addEntry_inserted_keeps_needed m pref q e h id hid
+
+/-- `add_entry` keeps InputsResolvable, whatever it evicts, inserts or refuses: if every input and cell dep of every
+    pooled entry and of the new entry is live or created in the pool, the same holds afterwards (false for the
+    function before 10e306f: `readd_evicts_creator_of_own_input`) -/
+theorem add_entry_keeps_inputs_resolvable (P : Nat → Prop) (m : Nat) (pref : List Nat) (q : Pool) (e : PEnt)
+    (hu : UniqueIds q) (hr : Resolvable P q) (he : ∀ o ∈ e.spent ++ e.deps, P o ∨ ∃ x ∈ q, o ∈ x.outs) :
+    Resolvable P (addEntry m pref q e).1 := resolvable_addEntry m pref q e hu hr he
+
+/-- the whole loop of `readd_detached_tx` AS WRITTEN (evictions, refusals after evictions included) keeps
+    InputsResolvable for every list of detached transactions and every pool in which an id determines the outputs -/
+theorem readds_as_written_keep_inputs_resolvable (a : Args) (live : List Nat) (q : Pool) (l : List CTx)
+    (hu : UniqueIds q) (h : Resolvable (· ∈ live) q) : Resolvable (· ∈ live) (readdR a live q l) :=
+  (resolvable_readdR a live l q (fun _ ho => ho) hu h).1
+
+/-- non-vacuity: the cell-ref eviction history V1 (B evicted, t inserted), resolvable before and after -/
+example :
+    let q : Pool := [⟨1, 0, [10], [], [], [16], 0⟩, ⟨2, 0, [11], [20], [], [32], 0⟩]
+    let a : Args := { attached := [], detachedHeaders := [], detachedProposals := [], gap := [], proposed := [], expired := [], maxAnc := 2 }
+    UniqueIds q ∧ Resolvable (· ∈ [10, 11, 20]) q ∧
+    (readdR a [10, 11, 20] q [{ id := 3, spent := [16, 20], outs := [48] }]).map (·.id) = [1, 3] := by
+  refine ⟨?_, ?_, by decide⟩
+  · unfold UniqueIds; decide
+  · unfold Resolvable; decide
+
 /-- every surviving entry of the update with the real `remove_by_detached_proposal` is an old entry (possibly at another stage) -/
 theorem updateR_only_drops_or_restages (p : Pool) (a : Args) : Sub (updateR p a) p :=
   (sub_updateR_attached p a).trans (sub_foldl _ sub_removeCommitted _ _)
@@ -667,6 +709,179 @@ theorem reorgR_eq_reorg_partial (p : Pool) (a : Args)
 /-- non-vacuity of `reorgR_eq_reorg_partial` and of the clauses above: the m1 history -/
 example : reorgR poolM1 argsM1 = reorg poolM1 argsM1 ∧ (reorgR poolM1 argsM1).map (·.id) = [4] := by decide
 
+/-- InputsResolvable for the section AS WRITTEN (partial): with the hypotheses of `inputs_resolvable_up_to_detached`,
+    an id determining the outputs, and every pooled entry with a detached proposal id pending (so that
+    `remove_by_detached_proposal` takes nothing out — the step that breaks the clause, known finding
+    input-of-parent-dropped-at-detached-proposal-readd), every input and cell dep of every pooled entry after
+    `reorgR` — cell-ref evictions and refusals after evictions of the re-adds included — is live on the new chain,
+    created by a pooled entry, or an output of a detached transaction. No hypothesis about cell deps is needed
+    any more (compare `reorgR_eq_reorg_partial`): that is what /repo 10e306f bought.
+    FULL STATEMENT (false as the code is): the same without the pending hypothesis. -/
+theorem inputs_resolvable_up_to_detached_R_partial (p : Pool) (a : Args) (hu : UniqueIds p)
+    (hres : Resolvable (· ∈ a.live) p) (hnd : NoDoubleSpend p)
+    (hsame : ∀ t ∈ a.attached, ∀ x ∈ p, x.id = t.id → x.outs = t.outs)
+    (h1 : ∀ id ∈ a.detachedProposals, ∀ e ∈ p, e.id = id → e.status = 0) :
+    ∀ e ∈ reorgR p a, ∀ o ∈ e.spent ++ e.deps,
+      o ∈ newLive a ∨ (∃ d ∈ a.detached, o ∈ d.outs) ∨ ∃ x ∈ reorgR p a, o ∈ x.outs := by
+  have hp2 : ∀ e ∈ resolveHeaderDeps (a.attached.foldl removeCommitted p) a.detachedHeaders, e ∈ p :=
+    fun e he => mem_of_mem_conflict_phases p a he
+  have hfold := foldl_detachProposalR_eq_of_pending a.maxAnc a.evictPref a.detachedProposals
+    (resolveHeaderDeps (a.attached.foldl removeCommitted p) a.detachedHeaders)
+    (fun id hid e he => h1 id hid e (hp2 e he))
+  have hupd : updateR p a = update p a := by
+    unfold updateR update
+    simp only [hfold.1, hfold.2]
+  have h0 : Resolvable (Excused a) p := by
+    intro e he o ho
+    exact (hres e he o ho).imp excused_of_live id
+  have hL : Resolvable (Excused a) (updateL p a) := by
+    apply resolvable_limitSize
+    apply resolvable_update p a h0
+    intro t ht x hx hid o ho
+    exact excused_of_attached_out ht (hsame t ht x hx hid ▸ ho)
+  have h2 : Resolvable (fun o => o ∈ newLive a ∨ ∃ d ∈ a.detached, o ∈ d.outs) (updateL p a) := by
+    intro e he o ho
+    rcases hL e he o ho with (h | h | ⟨y, hy, hoy⟩) | h
+    · exact Or.inl (Or.inl h)
+    · exact Or.inl (Or.inr h)
+    · exfalso
+      have := no_conflict_with_attached_after_limit p a hnd e he y hy o hoy
+      rcases List.mem_append.mp ho with h | h
+      · exact this.1 h
+      · exact this.2 h
+    · exact Or.inr h
+  have huL : UniqueIds (updateL p a) :=
+    uniqueIds_of_sub ((sub_limitSize a _).trans (update_only_drops_or_restages p a)) hu
+  have h3 := (resolvable_readdR a (newLive a) (retain a) (updateL p a)
+    (P := fun o => o ∈ newLive a ∨ ∃ d ∈ a.detached, o ∈ d.outs) (fun o ho => Or.inl ho) huL h2).1
+  have hE : reorgR p a = readdR a (newLive a) (updateL p a) (retain a) := by
+    unfold reorgR updateL; rw [hupd]
+  rw [hE]
+  intro e he o ho
+  rcases h3 e he o ho with (h | h) | h
+  · exact Or.inl h
+  · exact Or.inr (Or.inl h)
+  · exact Or.inr (Or.inr h)
+
+/-- non-vacuity: the V1 eviction history as a whole section (B and 1 pooled, t detached), hypotheses hold, B is evicted -/
+example :
+    let p : Pool := [⟨1, 0, [10], [], [], [16], 0⟩, ⟨2, 0, [11], [20], [], [32], 0⟩]
+    let a : Args := { attached := [], detachedHeaders := [], detachedProposals := [], gap := [], proposed := [], expired := [],
+                      detached := [{ id := 3, spent := [16, 20], outs := [48] }], live := [10, 11, 48], maxAnc := 2 }
+    UniqueIds p ∧ NoDoubleSpend p ∧ (reorgR p a).map (·.id) = [1, 3] := by
+  refine ⟨?_, ?_, by decide⟩
+  · unfold UniqueIds; decide
+  · unfold NoDoubleSpend; decide
+
+/-- STAGE = WINDOW for the section AS WRITTEN (same strongest true form and same hypotheses as
+    `stage_matches_window_partial`, now about `reorgR`: the real `remove_by_detached_proposal`, whose refused
+    re-adds only drop entries, and the real re-adds): every pooled entry is at the stage the new window gives its
+    id, or it is a gap entry outside both parts of the window (known finding stage-gap-outside-window) -/
+theorem stage_matches_window_R_partial (p : Pool) (a : Args)
+    (hsame : ∀ x ∈ p, ∀ y ∈ p, x.id = y.id → x.status = y.status)
+    (hle : ∀ x ∈ p, x.status ≤ 2)
+    (hprop : ∀ x ∈ p, x.status = 2 → x.id ∈ a.proposed ∨ x.id ∈ a.detachedProposals) :
+    ∀ e ∈ reorgR p a, e.status = windowStage a e.id ∨ (e.status = 1 ∧ e.id ∉ a.proposed ∧ e.id ∉ a.gap) := by
+  intro e he
+  rcases reorgR_adds_only_resolving_detached p a e he with h | ⟨_, t, _, _, _, _, rfl⟩
+  · have h1 : e ∈ updateR p a := mem_of_mem_limitLoop _ _ _ _ h
+    unfold updateR at h1
+    have h2 := mem_of_mem_foldl_removeWithDesc _ _ h1
+    have hin : ∀ x ∈ resolveHeaderDeps (a.attached.foldl removeCommitted p) a.detachedHeaders, x ∈ p :=
+      fun x hx => mem_of_mem_conflict_phases p a hx
+    have h0 : StageInv a [] (resolveHeaderDeps (a.attached.foldl removeCommitted p) a.detachedHeaders) :=
+      ⟨fun x hx y hy => hsame x (hin x hx) y (hin y hy), fun x hx => hle x (hin x hx),
+        fun x hx => hprop x (hin x hx), fun x _ hd => by simp at hd⟩
+    have h3 := stageInv_foldl_detachProposalR a.maxAnc a.evictPref a.detachedProposals [] _ h0
+    rw [List.append_nil] at h3
+    exact stage_after_moves h3 e h2
+  · exact Or.inl rfl
+
+/-- non-vacuity: limit 2, the chain 1 → 2 → 3 → 4 with 3 proposed and its proposal detached (the history of
+    `detached_proposal_readd_refused_orphans_child`): 3 is dropped, the others are at the stage of the window -/
+example :
+    let p : Pool := [⟨1, 0, [10], [], [], [16], 0⟩, ⟨2, 0, [16], [], [], [32], 0⟩, ⟨3, 2, [32], [], [], [48], 0⟩, ⟨4, 0, [48], [], [], [64], 0⟩]
+    let a : Args := { attached := [], detachedHeaders := [], detachedProposals := [3], gap := [4], proposed := [1], expired := [],
+                      live := [10], maxAnc := 2 }
+    (reorgR p a).map (fun e => (e.id, e.status)) = [(1, 2), (2, 0), (4, 1)] := by decide
+
+/-! ## `submit_entry` interleaved with the reorg notification (`Model/ReorgSubmit.lean`)
+
+Every schedule of the tx-pool service is a sequence of atomic write-locked steps; a submission whose
+verification started before a chain change reaches `submit_entry` with the tip of its pre-check. -/
+
+/-- a submission that was verified against an OLDER tip keeps InputsResolvable, whatever the pool and the chain
+    became meanwhile: it is re-checked against pool + current chain, and `add_entry` keeps the clause -/
+theorem stale_submit_keeps_inputs_resolvable (a : Args) (live : List Nat) (preTip tip preStage : Nat) (q : Pool) (t : CTx)
+    (hne : preTip ≠ tip) (hu : UniqueIds q) (hr : Resolvable (· ∈ live) q) :
+    Resolvable (· ∈ live) (submitEntry a live preTip tip preStage q t).1 :=
+  (resolvable_submitEntry_stale a live preTip tip preStage q t hne (fun _ ho => ho) hu hr).1
+
+/-- … for every batch of paused submissions released after the chain change, in every order -/
+theorem stale_submits_keep_inputs_resolvable (a : Args) (live : List Nat) (tip : Nat) (q : Pool) (l : List (CTx × Nat × Nat))
+    (hne : ∀ x ∈ l, x.2.1 ≠ tip) (hu : UniqueIds q) (hr : Resolvable (· ∈ live) q) :
+    Resolvable (· ∈ live) (submitAll a live tip q l) :=
+  (resolvable_submitAll a live tip l q hne (fun _ ho => ho) hu hr).1
+
+/-- a stale submission never brings in anything but the transaction itself, and only if it resolves against the
+    pool + the CURRENT chain; it then sits at the stage of the CURRENT proposal window and has no header dep off
+    the main chain -/
+theorem stale_submit_adds_only_resolving_tx_at_window_stage (a : Args) (live : List Nat) (preTip tip preStage : Nat)
+    (q : Pool) (t : CTx) (hne : preTip ≠ tip) (e : PEnt) (he : e ∈ (submitEntry a live preTip tip preStage q t).1) :
+    e ∈ q ∨ (e = entryOf a t ∧ e.status = windowStage a t.id ∧ resolves q a live t = true ∧
+             ∀ h ∈ e.hdeps, h ∉ a.detachedHeaders) := by
+  rcases submitEntry_stale_prov a live preTip tip preStage q t hne he with h | ⟨hres, rfl⟩
+  · exact Or.inl h
+  · exact Or.inr ⟨rfl, rfl, hres, fun h hh => resolves_hdeps hres h hh⟩
+
+/-- NoCommittedPooled / NoConflict across the interleaving: a paused transaction one of whose inputs was consumed
+    on the new chain (by itself — it was committed meanwhile — or by a conflicting transaction) and is not created
+    in the pool is refused and the pool is untouched -/
+theorem stale_submit_with_consumed_input_refused (a : Args) (live : List Nat) (preTip tip preStage : Nat) (q : Pool) (t : CTx)
+    (hne : preTip ≠ tip) (o : Nat) (ho : o ∈ t.spent) (hdead : o ∉ live) (hmade : ∀ x ∈ q, o ∉ x.outs) :
+    submitEntry a live preTip tip preStage q t = (q, false) := by
+  apply submitEntry_stale_refused a live preTip tip preStage q t hne
+  cases hres : resolves q a live t with
+  | false => rfl
+  | true =>
+    exfalso
+    obtain ⟨_, h2⟩ := cellLive_cases (resolves_cells hres o (List.mem_append.mpr (Or.inl ho)))
+    rcases h2 with ⟨x, hx, hox⟩ | h2
+    · exact hmade x hx hox
+    · exact hdead h2
+
+/-- WITNESS for the re-check: the same step without it (`submitEntryNoRecheck`) admits a transaction whose input
+    was consumed on the new chain; with it the transaction is refused -/
+theorem stale_submit_without_recheck_admits_dead_input :
+    let a : Args := { attached := [], detachedHeaders := [], detachedProposals := [], gap := [], proposed := [], expired := [] }
+    let t : CTx := { id := 3, spent := [10], outs := [48] }
+    (submitEntryNoRecheck a 0 [] t).1.map (·.id) = [3] ∧ ¬ Resolvable (· ∈ ([] : List Nat)) (submitEntryNoRecheck a 0 [] t).1 ∧
+    submitEntry a [] 1 2 0 [] t = ([], false) := by
+  refine ⟨by decide, ?_, by decide⟩
+  unfold Resolvable; decide
+
+/-- SUSPECTED DEFECT (round 6; replay work/eng-C12/finding-same-tip-parent-replaced.ops on the real node): the re-check
+    runs only when the TIP moved. P = 1 (output 16) was pooled when t = 2 was verified; a concurrent submission
+    replaced P by P' = 3 (RBF, same input 10); the tip is still the one of t's pre-check, so `submit_entry` re-checks
+    nothing, `add_entry` finds no pooled parent, and t is pooled with the input 16 that is neither live nor created
+    in the pool. Had the tip moved, t would have been refused. -/
+theorem same_tip_submit_is_not_rechecked_orphans_child :
+    let a : Args := { attached := [], detachedHeaders := [], detachedProposals := [], gap := [], proposed := [], expired := [] }
+    let q : Pool := [⟨3, 0, [10], [], [], [48], 0⟩]
+    let t : CTx := { id := 2, spent := [16], outs := [32] }
+    (submitEntry a [] 7 7 0 q t).1.map (·.id) = [3, 2] ∧ ¬ Resolvable (· ∈ ([] : List Nat)) (submitEntry a [] 7 7 0 q t).1 ∧
+    submitEntry a [] 6 7 0 q t = (q, false) := by
+  refine ⟨by decide, ?_, by decide⟩
+  unfold Resolvable; decide
+
+/-- non-vacuity of the stale-submission theorems: the tip moved, the parent 1 is pooled, cell 20 is live: t is
+    admitted at the stage of the current window (proposed) -/
+example :
+    let a : Args := { attached := [], detachedHeaders := [], detachedProposals := [], gap := [], proposed := [3], expired := [] }
+    (submitEntry a [10, 20] 1 2 0 [⟨1, 0, [10], [], [], [16], 0⟩] { id := 3, spent := [16, 20], outs := [48] }).1.map
+      (fun e => (e.id, e.status)) = [(1, 0), (3, 2)] := by decide
+
+
 /-! ### negation witnesses: what the real re-adds break (suspected defects, reproduced on the node) -/
 
 /-- SUSPECTED DEFECT (replay corpus/C12/reorg-suspect-detached-proposal-readd-refused.ops): limit 2; the chain
@@ -695,17 +910,29 @@ theorem readd_evicts_cell_ref_parent :
                       live := [32, 48], maxAnc := 2 }
     (reorgR [] a).map (·.id) = [1, 3] ∧ (reorg [] a).map (·.id) = [1, 2] ∧ newLive a = [20, 11, 10] := by decide
 
-/-- SUSPECTED DEFECT (replay corpus/C12/reorg-suspect-evicted-cell-ref-parent-is-creator.ops, also reachable by a plain
-    submission): B = 2 spends an output of 1 and has cell 20 as a cell dep; t = 3 spends 20 AND B's output 32. Limit 2:
-    t is over the limit, B is its only cell-ref parent, B is evicted and leaves `parents`, so the check "every
-    remaining parent is pooled" passes and t is inserted — with the input 32 that nobody creates any more. -/
+/-- DEFECT F33, repaired by /repo 10e306f (replay corpus/C12/reorg-suspect-evicted-cell-ref-parent-is-creator.ops, also
+    reachable by a plain submission) — about the function AS IT WAS (`reorgRPreF33`): B = 2 spends an output of 1 and has
+    cell 20 as a cell dep; t = 3 spends 20 AND B's output 32. Limit 2: t is over the limit, B is its only cell-ref
+    parent, B is evicted and leaves `parents`, so the check "every remaining parent is pooled" passes and t is
+    inserted — with the input 32 that nobody creates any more. -/
 theorem readd_evicts_creator_of_own_input :
     let a : Args := { attached := [], detachedHeaders := [], detachedProposals := [], gap := [], proposed := [], expired := [],
                       detached := [{ id := 1, spent := [10], outs := [16] }, { id := 2, spent := [16], deps := [20], outs := [32] },
                                    { id := 3, spent := [32, 20], outs := [48] }],
                       live := [48], maxAnc := 2 }
-    (reorgR [] a).map (·.id) = [1, 3] ∧ ¬ Resolvable (· ∈ newLive a) (reorgR [] a) ∧ 32 ∉ newLive a := by
+    (reorgRPreF33 [] a).map (·.id) = [1, 3] ∧ ¬ Resolvable (· ∈ newLive a) (reorgRPreF33 [] a) ∧ 32 ∉ newLive a := by
   refine ⟨by decide, ?_, by decide⟩
+  unfold Resolvable; decide
+
+/-- the same history on the code as it is (10e306f): B is needed by t, so it is no eviction candidate; t is over
+    the limit with no evictable parent and is refused; 1 and B stay and every input is live or created in the pool -/
+theorem readd_keeps_creator_of_own_input :
+    let a : Args := { attached := [], detachedHeaders := [], detachedProposals := [], gap := [], proposed := [], expired := [],
+                      detached := [{ id := 1, spent := [10], outs := [16] }, { id := 2, spent := [16], deps := [20], outs := [32] },
+                                   { id := 3, spent := [32, 20], outs := [48] }],
+                      live := [48], maxAnc := 2 }
+    (reorgR [] a).map (·.id) = [1, 2] ∧ Resolvable (· ∈ newLive a) (reorgR [] a) := by
+  refine ⟨by decide, ?_⟩
   unfold Resolvable; decide
 
 /-- SUSPECTED DEFECT (replay corpus/C12/reorg-suspect-refused-after-eviction.ops): 1, B = 2 (cell dep 20), C = 3 (spends
